@@ -1,6 +1,6 @@
 """Property -> what decides it (units under contract, extra obligation groups, covers, bounded native oracle)."""
 from __future__ import annotations
-from . import native_ode, native_net, rates, templates, conservation
+from . import native_ode, native_net, rates, templates, conservation, c19
 
 ODE_UNIT = ("contracts.ode", "prepare_ode_content")
 
@@ -74,6 +74,16 @@ PROPERTIES = {
         "units": [ODE_UNIT],
         "oracle": native_ode.oracle_for("C13"),
         "trusted_base": _ode_trusted,
+    },
+    "C19": {
+        "level": "proof",
+        "units": [],
+        "extra": [c19.handle_error_items, c19.odeint_items],
+        "claim": "Naunet::HandleError of the really rendered cvode dense/sparse source is executed symbolically (outer recovery ladder unrolled completely, sub-step loop by an inductive invariant) against an assumed CVode/CVodeReInit contract with a fresh symbolic (flag, reached time) at every call: success implies the state advanced by exactly the requested dt; negative final flags, unrecoverable flags and failing re-initialisation return NAUNET_FAIL; Solve returns that flag and logs the initial state. Odeint: Observer throws beyond the budget, Solve maps the exception to NAUNET_FAIL, Init/Reset store the budget on every successful path.",
+        "trusted_base": ["assumed contract of CVode / CVodeReInit / integrate_adaptive (external integrators)", "pow(10, log10 d) == d, pow10 positive and monotone (IEEE rounding outside the claim: 'exactly' is proved in the reals)",
+                         "pyvc.cmini front end: comments, value-preserving casts and I/O calls dropped; arrays represented by their generic element (only element-wise copy loops occur)",
+                         "cusparse Solve / HandleError: no recovery implemented (TODO in the template), outside the claim; odeint PyWrapSolve drops the flag (Python binding only)"],
+        "contract_files": ["c19.py"],
     },
     "C07": {
         "level": "other",
